@@ -22,7 +22,7 @@ from symx.explore import Obligation, Raised, call_catching
 hook.install()
 MOD = "props.c15"
 
-HOSTILE = "\"'\\\n\r\t #{}:aNxu0\xe9\u2028\x0c\x00\U0001f600"
+HOSTILE = "\"'\\\n\r\t #{}:aNxu0\xe9\u2028\x0c\x00\U0001f600\xb2"  # the last one: \\w accepts it, Python identifiers do not
 HOSTILE_RANGES = ranges_of_pts([ord(c) for c in HOSTILE])
 
 
@@ -115,6 +115,11 @@ def m_property_name(P, t):
 
 def m_string_default(P, t):
     return _model(P, S(P, name="Holder", type="object", properties={"v": S(P, type="string", default=t)}, required=[]))
+
+
+def m_numeric_string_default(P, t):
+    # an integer property whose default is written as a string in the document
+    return _model(P, S(P, name="Holder", type="object", properties={"v": S(P, type="integer", default=t)}, required=[]))
 
 
 def m_enum_default(P, t):
@@ -307,6 +312,7 @@ SITES = {
     "model.field_description_optional": (m_field_desc_optional, False, 0, _MODEL_FUNCS + [B + "core.writers.python_construct_renderer:PythonConstructRenderer.render_dataclass"]),
     "model.property_name": (m_property_name, True, 1, _MODEL_FUNCS + [B + "visit.model.dataclass_generator:DataclassGenerator.generate", B + "core.writers.python_construct_renderer:PythonConstructRenderer.render_dataclass"]),
     "model.string_default": (m_string_default, True, 1, _MODEL_FUNCS + [B + "visit.model.dataclass_generator:DataclassGenerator._get_field_default"]),
+    "model.integer_property_string_default": (m_numeric_string_default, False, 1, _MODEL_FUNCS + [B + "visit.model.dataclass_generator:DataclassGenerator._get_field_default"]),
     "model.enum_default": (m_enum_default, True, 1, _MODEL_FUNCS + [B + "visit.model.dataclass_generator:DataclassGenerator._get_field_default"]),
     "model.enum_value": (m_enum_value, True, 1, _MODEL_FUNCS + [B + "visit.model.enum_generator:EnumGenerator.generate", B + "core.writers.python_construct_renderer:PythonConstructRenderer.render_enum"]),
     "model.enum_description": (m_enum_desc, False, 0, _MODEL_FUNCS + [B + "core.writers.python_construct_renderer:PythonConstructRenderer.render_enum"]),
